@@ -1,6 +1,10 @@
 package props
 
 import (
+	"fmt"
+
+	eval "github.com/onheap/eval"
+
 	"verifmc/drive"
 	"verifmc/ref"
 	"verifmc/rep"
@@ -66,7 +70,7 @@ func c03(r *rep.Run) {
 		coreMax, richMax = 8, 7
 		r.SetBudget(1500e9)
 	}
-	r.Rule = "every CORE/RICH program up to the node bound x 16 optimisation subsets x {events off, ReportEvent} x every binding of its variables to a value or a sentinel fetch failure; oracle: the ordered log of VariableFetcher.Get calls and registered-operator calls (names, argument snapshots, results, failures) recorded by the harness equals the trace of left-to-right short-circuit evaluation (R1) of the tree parsed from Dump, and so does the outcome; under FastEvaluation a two-leaf operator may fetch both leaves first (every per-node choice is accepted, nothing else). With optimisations off the Dump tree must equal the source tree. non-trivial = executions in which R1 skips at least one effect (short-circuit / untaken branch) or fails"
+	r.Rule = "every CORE/RICH program up to the node bound x 16 optimisation subsets x {events off, ReportEvent} x every binding of its variables to a value or a sentinel fetch failure; oracle: the ordered log of VariableFetcher.Get calls and registered-operator calls (names, argument snapshots, results, failures) recorded by the harness equals the trace of left-to-right short-circuit evaluation (R1) of the tree parsed from Dump, and so does the outcome; under FastEvaluation a two-leaf operator may fetch both leaves first (every per-node choice is accepted, nothing else). With optimisations off the Dump tree must equal the source tree. Plus nested evaluations: while a registered operator runs, the same compiled program (operand widths 3..40: all operand-stack classes) is evaluated to completion under another binding; the outer Eval/TryEval must still match R1 for its own binding. non-trivial = executions in which R1 skips at least one effect (short-circuit / untaken branch) or fails"
 	r.Assume = []string{"the independent Dump reader (mc/sx) is correct on the plain literals these alphabets use",
 		"small-scope hypothesis on tree size"}
 	r.Cov["bounds"] = map[string]int{"core_max_nodes": coreMax, "rich_max_nodes": richMax}
@@ -155,5 +159,113 @@ func c03(r *rep.Run) {
 		}
 	})
 	r.Cov["programs_completed"] = done
+	c03Nested(r)
 	r.Finish()
+}
+
+// c03Nested: evaluations of ONE compiled program that overlap without any
+// concurrency: a registered operator, while it runs, evaluates the same
+// program to completion under another binding (a rule that consults the same
+// rule for another subject). The outer evaluation must still perform exactly
+// the effects of short-circuit evaluation of its own binding. Widths cover
+// the operand-stack classes (<= 8, 9..16, > 16 pending operands).
+func c03Nested(r *rep.Run) {
+	h := drive.NewHarness()
+	var runs, nontrivial int64
+	for _, w := range []int{3, 7, 8, 9, 15, 16, 17, 18, 25, 40} {
+		mk := func(root string, ty term.Ty) *Prog {
+			kids := make([]*term.Term, w)
+			for i := range kids {
+				kids[i] = term.Var("n", I)
+			}
+			kids[w/2] = term.Op("g", I, term.Var("n", I))
+			return MkProg(term.If(term.Op("=", B, term.Op(root, ty, kids...), term.Op(root, ty, term.Var("n", I), term.Var("n", I))),
+				term.Op("g", I, term.Const(2)), term.Op("d", I, term.Var("n", I), term.Const(3))))
+		}
+		progs := []*Prog{mk("+", I), mk("cat", I)}
+		// an n-ary equality as the condition itself
+		{
+			kids := make([]*term.Term, w)
+			for i := range kids {
+				kids[i] = term.Var("n", I)
+			}
+			kids[w/2] = term.Op("g", I, term.Var("n", I))
+			progs = append(progs, MkProg(term.If(term.Op("=", B, kids...), term.Op("g", I, term.Const(2)), term.Op("d", I, term.Var("n", I), term.Const(3)))))
+		}
+		for _, p := range progs {
+			for _, o := range []drive.Opt{{}, {CF: true, RN: true, FE: true, RO: true}, {FE: true}} {
+				cs := compileAll(r, h, p, []drive.Opt{o})
+				if len(cs) != 1 {
+					continue
+				}
+				c := &cs[0]
+				tree, _, err := dumpTree(c.e)
+				if err != nil {
+					continue
+				}
+				// bindings: A makes the condition true, B makes it false
+				bind := func(kind int) []interface{} {
+					vals := make([]interface{}, len(p.Vars))
+					for i := range vals {
+						switch kind {
+						case 0:
+							vals[i] = int64(0)
+						case 1:
+							vals[i] = int64(i + 1)
+						default:
+							vals[i] = int64(7)
+						}
+					}
+					return vals
+				}
+				inner := drive.NewFetcher(h, p.Vars, o)
+				for outerK := 0; outerK < 3; outerK++ {
+					for innerK := 0; innerK < 3; innerK++ {
+						for mode := 0; mode < 2; mode++ {
+							for innerMode := 0; innerMode < 2; innerMode++ {
+								outerVals := bind(outerK)
+								copy(c.f.Vals, outerVals)
+								copy(inner.Vals, bind(innerK))
+								depth := 0
+								var innerOut drive.Out
+								h.OpHook = func(name string, _ []eval.Value) {
+									if name != "g" || depth > 0 {
+										return
+									}
+									depth++
+									saved := len(h.Trace)
+									if innerMode == 0 {
+										innerOut = h.Eval(c.e, inner)
+									} else {
+										innerOut = h.TryEval(c.e, inner)
+									}
+									h.Trace = h.Trace[:saved]
+									depth--
+								}
+								h.Reset()
+								var got drive.Out
+								if mode == 0 {
+									got = h.Eval(c.e, c.f)
+								} else {
+									got = h.TryEval(c.e, c.f)
+								}
+								h.OpHook = nil
+								runs++
+								if outerK != innerK {
+									nontrivial++
+								}
+								ok, wantTrace, want := c03Match(tree, p.Vars, outerVals, o.FE, got, h.Trace)
+								if !ok {
+									r.Violate("nested-evaluation", sprintf("%d%s", w, o), sprintf("while operator g ran, the same compiled program was evaluated under another binding; afterwards the outer %s gives %s / performs other effects than short-circuit evaluation of its own binding (%s)", []string{"Eval", "TryEval"}[mode], got, want),
+										caseDesc(p.Src, o, p.Vars, outerVals, nil, map[string]interface{}{"nested_binding": fmt.Sprint(inner.Vals), "nested_entry": []string{"Eval", "TryEval"}[innerMode], "nested_result": innerOut.String(), "got_trace": traceStr(h.Trace), "want_trace": traceStr(wantTrace)}))
+								}
+							}
+						}
+					}
+				}
+			}
+		}
+	}
+	r.Cov["nested_evaluation_runs"] = runs
+	r.Add(0, runs, runs, runs, nontrivial)
 }
